@@ -9,10 +9,13 @@ import (
 	"strings"
 
 	"github.com/dolthub/dolt/go/libraries/doltcore/doltdb"
+	"github.com/dolthub/dolt/go/libraries/doltcore/doltdb/durable"
 	"github.com/dolthub/dolt/go/libraries/doltcore/merge"
 	"github.com/dolthub/dolt/go/libraries/doltcore/ref"
 	"github.com/dolthub/dolt/go/libraries/doltcore/sqle/dsess"
 	"github.com/dolthub/dolt/go/libraries/doltcore/table/editor"
+	"github.com/dolthub/dolt/go/store/prolly/tree"
+	"github.com/dolthub/dolt/go/store/val"
 	"github.com/dolthub/dolt/go/zz_verif/common"
 	"github.com/dolthub/dolt/go/zz_verif/sqlh"
 )
@@ -31,9 +34,12 @@ import (
 const blk = 100000
 
 type amp struct {
-	R      int
-	F      int
-	seed   int64
+	R       int
+	F       int
+	seed    int64
+	scatter bool          // model keys are bound to rows at chosen positions of three consecutive leaf chunks
+	pks     map[int][]int // scatter: model key -> concrete primary keys
+	layout  string        // scatter: the chosen leaves and positions (for messages)
 	filler []string // rendered filler rows "pk|c1|c2|pad"
 	fsql   []string // VALUES tuples of the filler
 }
@@ -52,6 +58,11 @@ func (s *c30sub) buildFiller() {
 	rng := rand.New(rand.NewSource(s.a.seed))
 	seen := map[int]bool{}
 	var pks []int
+	if s.a.scatter {
+		for pk := 1; pk <= s.a.F; pk++ {
+			pks = append(pks, pk)
+		}
+	}
 	for len(pks) < s.a.F {
 		g := rng.Intn(3) // below key 1, between, above key 2
 		pk := g*blk + s.a.R + 1 + rng.Intn(blk-s.a.R-2)
@@ -67,16 +78,114 @@ func (s *c30sub) buildFiller() {
 	sort.Ints(pks)
 	for _, pk := range pks {
 		v1, v2 := rng.Intn(4), rng.Intn(4)
+		if s.a.scatter {
+			v1, v2 = 1+rng.Intn(3), 1+rng.Intn(3) // fixed-width cells: updates never move a chunk boundary
+		}
 		s.a.filler = append(s.a.filler, fmt.Sprintf("%d|%s|%s|%s", pk, s.b.out(1, v1, false), s.b.out(2, v2, false), padOf(pk)))
 		s.a.fsql = append(s.a.fsql, fmt.Sprintf("(%d, %s, %s, '%s')", pk, s.b.lit(1, v1, false), s.b.lit(2, v2, false), padOf(pk)))
 	}
 }
 
+// keyPks: the concrete primary keys a model key stands for
+func (s *c30sub) keyPks(k int) []int {
+	if s.a.scatter {
+		return s.a.pks[k]
+	}
+	out := make([]int, s.a.R)
+	for j := range out {
+		out[j] = k*blk + j
+	}
+	return out
+}
+
+func inList(pks []int) string {
+	parts := make([]string, len(pks))
+	for i, p := range pks {
+		parts[i] = fmt.Sprint(p)
+	}
+	return "(" + strings.Join(parts, ", ") + ")"
+}
+
+// leaves: the primary keys of every leaf chunk of the table's clustered index, read from the session's working root
+func leaves(srv *sqlh.Server, ss *sqlh.Session, table string) ([][]int, error) {
+	sqlCtx, err := srv.Eng.NewContext(context.Background(), ss.Sess)
+	if err != nil {
+		return nil, err
+	}
+	sqlCtx.SetCurrentDatabase(srv.DB)
+	roots, ok := dsess.DSessFromSess(ss.Sess).GetRoots(sqlCtx, srv.DB)
+	if !ok {
+		return nil, fmt.Errorf("no roots")
+	}
+	tbl, ok, err := roots.Working.GetTable(sqlCtx, doltdb.TableName{Name: table})
+	if err != nil || !ok {
+		return nil, fmt.Errorf("table %s: %v", table, err)
+	}
+	idx, err := tbl.GetRowData(sqlCtx)
+	if err != nil {
+		return nil, err
+	}
+	m, err := durable.ProllyMapFromIndex(idx)
+	if err != nil {
+		return nil, err
+	}
+	kd := m.KeyDesc()
+	var out [][]int
+	err = m.WalkNodes(sqlCtx, func(_ context.Context, nd *tree.Node) error {
+		if nd.IsLeaf() && nd.Count() > 0 {
+			var pks []int
+			for i := 0; i < nd.Count(); i++ {
+				v, _ := kd.GetInt32(0, val.Tuple(nd.GetKey(i)))
+				pks = append(pks, int(v))
+			}
+			out = append(out, pks)
+		}
+		return nil
+	})
+	return out, err
+}
+
+// scatterBind: three consecutive leaf chunks A, B, C (C not the last leaf). One model key stands for {a row of A, a row of B,
+// the LAST key of C}, the other for {another row of A (first or last key of A), a non-last row of C (first key or middle)};
+// B is touched by one model key only, so the other side's patch generator can climb above leaf level between A and C.
+func (s *c30sub) scatterBind(lv [][]int) error {
+	rng := rand.New(rand.NewSource(s.a.seed))
+	var cand []int
+	for i := 1; i+3 < len(lv); i++ {
+		if len(lv[i]) >= 4 && len(lv[i+1]) >= 3 && len(lv[i+2]) >= 4 {
+			cand = append(cand, i)
+		}
+	}
+	if len(cand) == 0 {
+		return fmt.Errorf("table has %d leaves: no three consecutive inner leaves", len(lv))
+	}
+	i := cand[rng.Intn(len(cand))]
+	A, B, C := lv[i], lv[i+1], lv[i+2]
+	mid := func(l []int) int { return l[1+rng.Intn(len(l)-2)] }
+	a1 := mid(A)
+	a2 := A[0]
+	if rng.Intn(2) == 0 {
+		a2 = A[len(A)-1]
+	}
+	c2 := C[0]
+	if rng.Intn(2) == 0 {
+		c2 = mid(C)
+	}
+	set1 := []int{a1, mid(B), C[len(C)-1]}
+	set2 := []int{a2, c2}
+	k1, k2 := 1, 2
+	if rng.Intn(2) == 0 {
+		k1, k2 = 2, 1
+	}
+	s.a.pks = map[int][]int{k1: set1, k2: set2}
+	s.a.layout = fmt.Sprintf("%d leaves; A=[%d..%d] B=[%d..%d] C=[%d..%d]; key %d -> %v, key %d -> %v", len(lv), A[0], A[len(A)-1], B[0], B[len(B)-1], C[0], C[len(C)-1], k1, set1, k2, set2)
+	return nil
+}
+
 func (s *c30sub) expand(t mtable) []string {
 	out := append([]string{}, s.a.filler...)
 	for k, r := range t {
-		for j := 0; j < s.a.R; j++ {
-			pk := k*blk + j
+		for _, pk := range s.keyPks(k) {
 			out = append(out, fmt.Sprintf("%d|%s|%s|%s", pk, s.b.out(1, r[0], false), s.b.out(2, r[1], false), padOf(pk)))
 		}
 	}
@@ -129,8 +238,7 @@ func diffSummary(exp, got []string) string {
 
 func (s *c30sub) insertBlock(r *runner, name string, k int, row mrow) error {
 	var vals []string
-	for j := 0; j < s.a.R; j++ {
-		pk := k*blk + j
+	for _, pk := range s.keyPks(k) {
 		vals = append(vals, fmt.Sprintf("(%d, %s, %s, '%s')", pk, s.b.lit(1, row[0], false), s.b.lit(2, row[1], false), padOf(pk)))
 	}
 	return insertChunks(r, name, vals)
@@ -166,7 +274,7 @@ func (s *c30sub) replaySide(r *runner, side string) {
 	for n, o := range ops {
 		op := o.(map[string]any)
 		k := common.Int(op["k"])
-		lo, hi := k*blk, k*blk+s.a.R-1
+		in := inList(s.keyPks(k))
 		for _, name := range s.names {
 			var err error
 			switch op["op"].(string) {
@@ -178,9 +286,9 @@ func (s *c30sub) replaySide(r *runner, side string) {
 				for _, c := range common.Ints(op["set"]) {
 					sets = append(sets, colName(c)+" = "+s.b.lit(c, row[c-1], false))
 				}
-				_, err = r.q(fmt.Sprintf("update `%s` set %s where pk between %d and %d", name, strings.Join(sets, ", "), lo, hi))
+				_, err = r.q(fmt.Sprintf("update `%s` set %s where pk in %s", name, strings.Join(sets, ", "), in))
 			case "delete":
-				_, err = r.q(fmt.Sprintf("delete from `%s` where pk between %d and %d", name, lo, hi))
+				_, err = r.q(fmt.Sprintf("delete from `%s` where pk in %s", name, in))
 			}
 			if err != nil {
 				s.failf("edit", side, "error", "statement %d of side %s on %s failed: %v", n, side, name, err)
@@ -212,8 +320,7 @@ func (s *c30sub) expConf(conf []any) []string {
 	for _, cf := range conf {
 		m := cf.(map[string]any)
 		k := common.Int(m["k"])
-		for j := 0; j < s.a.R; j++ {
-			pk := k*blk + j
+		for _, pk := range s.keyPks(k) {
 			side := func(row mrow) string {
 				if len(row) == 0 {
 					return "NULL|NULL|NULL"
@@ -285,6 +392,39 @@ func mergeStats(srv *sqlh.Server, ss *sqlh.Session, ours, theirs string) (map[st
 
 var _ = doltdb.TableName{}
 
+func (s *c30sub) mult() int {
+	if s.a.scatter {
+		return -1 // model keys stand for sets of different sizes: statistics are compared between the two tables only
+	}
+	return s.a.R
+}
+
+// weightedStats: the model's statistics with every model key counted as many times as it has concrete rows
+func (s *c30sub) weightedStats(m map[string]any, fastPath bool) mstats {
+	st := m["stats"].(map[string]any)
+	out := mstats{Op: st["op"].(string)}
+	if out.Op == "unmodified" {
+		return out
+	}
+	for i, o := range m["ops"].([]any) {
+		n := len(s.keyPks(i + 1))
+		switch o.(string) {
+		case "rightAdd":
+			out.Adds += n
+		case "rightModify", "divergentModifyResolved":
+			out.Mods += n
+		case "rightDelete", "divergentDeleteResolved":
+			out.Dels += n
+		case "divergentModifyConflict", "divergentDeleteConflict":
+			out.Confs += n
+		}
+	}
+	if fastPath {
+		out.Adds, out.Mods, out.Dels = 0, 0, 0
+	}
+	return out
+}
+
 func modelStats(m map[string]any, key string, R int) mstats {
 	st := m[key].(map[string]any)
 	return mstats{Op: st["op"].(string), Adds: R * common.Int(st["adds"]), Mods: R * common.Int(st["mods"]), Dels: R * common.Int(st["dels"]), Confs: R * common.Int(st["confs"])}
@@ -308,7 +448,7 @@ func runC30(c map[string]any) common.Result {
 		mm := m.(map[string]any)
 		s := &c30sub{sub: newSub(i, mm)}
 		am := mm["amp"].(map[string]any)
-		s.a = amp{R: common.Int(am["R"]), F: common.Int(am["F"]), seed: int64(common.Int(am["seed"]))}
+		s.a = amp{R: common.Int(am["R"]), F: common.Int(am["F"]), seed: int64(common.Int(am["seed"])), scatter: am["scatter"] == true}
 		s.names = [2]string{"f" + s.b.Name, "s" + s.b.Name}
 		s.buildFiller()
 		subs = append(subs, s)
@@ -326,12 +466,42 @@ func runC30(c map[string]any) common.Result {
 			if err := insertChunks(r, name, s.a.fsql); err != nil {
 				panic(err)
 			}
+			if s.a.scatter && ni == 0 {
+				lv, err := leaves(srv, ss, name)
+				if err == nil {
+					err = s.scatterBind(lv)
+				}
+				if err != nil {
+					panic(fmt.Sprintf("scatter binding: %v", err))
+				}
+				// the chosen rows stop being filler
+				chosen := map[string]bool{}
+				for _, set := range s.a.pks {
+					for _, pk := range set {
+						chosen[fmt.Sprint(pk)] = true
+					}
+				}
+				var keep []string
+				for _, f := range s.a.filler {
+					if !chosen[f[:strings.Index(f, "|")]] {
+						keep = append(keep, f)
+					}
+				}
+				s.a.filler = keep
+			}
 			base := toTable(s.c["base"])
 			for _, k := range sortedKeys(base) {
+				if s.a.scatter {
+					r.must(fmt.Sprintf("update `%s` set c1 = %s, c2 = %s where pk in %s", name, s.b.lit(1, base[k][0], false), s.b.lit(2, base[k][1], false), inList(s.keyPks(k))))
+					continue
+				}
 				if err := s.insertBlock(r, name, k, base[k]); err != nil {
 					panic(err)
 				}
 			}
+		}
+		if s.a.scatter {
+			r.log = append(r.log, "-- scatter binding of "+s.b.Name+": "+s.a.layout)
 		}
 		s.compareBoth(r, "base", "", toTable(s.c["base"]))
 	}
@@ -367,7 +537,10 @@ dirs:
 			}
 			m := s.c["m"].([]any)[di].(map[string]any)
 			slow, fast := st[s.names[1]], st[s.names[0]]
-			expSlow := modelStats(m, "stats", s.a.R)
+			if c["nostats"] == true {
+				continue
+			}
+			expSlow := s.weightedStats(m, false)
 			s.evals += 2
 			if slow != expSlow {
 				s.failf("stats", d, "slow", "merge.MergeStats of %s (row-level path): expected (spec) %v, observed %v", s.names[1], expSlow, slow)
@@ -375,7 +548,7 @@ dirs:
 			}
 			if fast != slow {
 				// the named deviation StatsFastPath of the spec: reported separately (soft), the comparison goes on
-				expFast := modelStats(m, "fast", s.a.R)
+				expFast := s.weightedStats(m, true)
 				what := "fast-differs-from-slow:other"
 				if fast == expFast {
 					what = "fast-differs-from-slow:adds-mods-deletes-not-counted"
@@ -441,7 +614,7 @@ dirs:
 		// user-visible statistics: dolt_diff_stat between our head and the merge result (what `dolt merge` prints)
 		if !anyConf {
 			for _, s := range subs {
-				if s.dead[d] {
+				if s.dead[d] || s.a.scatter {
 					continue
 				}
 				m := s.c["m"].([]any)[di].(map[string]any)
